@@ -4,3 +4,56 @@ Stdlib + smoothmath only (imported by the un-instrumented replay runner as well)
 """
 from harness import concrete
 from harness import routes as rt
+
+
+def _steps_bound(k):
+    import smoothmath._private.base_expression.expression as be
+    old = getattr(be, "REDUCTION_STEPS_BOUND", None)
+    if old is not None and k is not None:
+        be.REDUCTION_STEPS_BOUND = k
+    return be, old
+
+
+@concrete.register("simplify")
+def exec_simplify(spec, env):
+    """C08/C11: simplify spec['d'] and evaluate input, (intermediate,) and final forms at the same point.
+    what = pass: e.at(p), e._normalize(), normalized.at(p)
+           steps: additionally every intermediate form of e._take_reduction_step() iteration
+           giveup: as pass but with REDUCTION_STEPS_BOUND forced to spec['bound'] (the rewriter gives up early)"""
+    import logging
+    sm, E = rt.ns()
+    e = rt.build(spec["d"], env, {})
+    vs = rt.variables_of(spec["d"])
+    p = rt.make_point(concrete.coords(spec.get("supplied", vs), env))
+    what = spec.get("what", "pass")
+    outs = [rt.outcome(lambda: e.at(p))]
+    forms = []
+    logging.disable(logging.CRITICAL)
+    be, old = _steps_bound(spec.get("bound") if what == "giveup" else None)
+    try:
+        if what == "steps":
+            def walk():
+                cur = e
+                for _ in range(spec.get("max_steps", 400)):
+                    if cur._is_fully_reduced:
+                        break
+                    cur = cur._take_reduction_step()
+                    forms.append(cur)
+                forms.append(cur._normalize_fully_reduced())
+                return len(forms)
+            outs.append(rt.outcome(walk))
+        else:
+            def norm():
+                forms.append(e._normalize())
+                return 1
+            outs.append(rt.outcome(norm))
+    finally:
+        if old is not None:
+            be.REDUCTION_STEPS_BOUND = old
+        logging.disable(logging.NOTSET)
+    if spec.get("again"):
+        # simplifying a second time (flags are set now) must give the same meaning
+        outs.append(rt.outcome(lambda: forms.append(e._normalize()) or 1))
+    for f in forms:
+        outs.append(rt.outcome(lambda: f.at(p)))
+    return outs
